@@ -9,7 +9,7 @@
    setOutcome calls (failedToStart / setOutcome / failed / assert / failRemaining) and of
    recordSideband calls.  client_runner.go is the scripted interface, not modelled.
    The loop is structural recursion over the batch: no fuel.  No proofs here. *)
-From V Require Export Base C11_Consts C11_Proc C11_Start.
+From V Require Export Base C11_Consts C11_Proc C11_Start C11_Printer.
 Open Scope N_scope.
 
 (* ---------- outcomes ---------- *)
@@ -467,5 +467,63 @@ Definition run_c11_proc (args : list sx) : sx :=
     else None
   | _ => None end).
 
+(* ---------- which reader gets which size limit (the constants handed across files) ---------- *)
+(* client_runner.go declares maxClientResponseSize and reads the client's output with it;
+   server_runner.go declares maxServerResponseSize and reads the server's one response with it.
+   Both values are regenerated into C11_Consts.v from the compiled code. *)
+Inductive reader := RdClientOutput | RdServerResponse.
+Definition limit_of (r : reader) : N :=
+  match r with
+  | RdClientOutput => c11_max_client_response
+  | RdServerResponse => c11_max_server_response
+  end.
+(* ReadDelimitedMessage: the body is asked for (and a buffer allocated) iff the announced size does
+   not exceed the reader's limit; otherwise the read fails at the prefix *)
+Definition asks_for_body (r : reader) (size : N) : bool := size <=? limit_of r.
+(* the response of the start phase, read by runTestCasesForServer: a stream that announces `size`
+   bytes and then delivers a valid message of that size (with certificate) or nothing at all *)
+Definition server_resp (size : N) (body : bool) : resp :=
+  if asks_for_body RdServerResponse size && body then RValid true else RBad.
+
+Definition limit_server (size : N) (body tls : bool) : server :=
+  mkServer true WOk (server_resp size body) tls None false false [] false.
+
+(* size body n tls -> ((kind count) per case, returned, a read was made beyond the prefix) *)
+Definition run_c11_limit (args : list sx) : sx :=
+  or_bad (match args with
+  | [I size; body; I n; tls] =>
+    do body <- un_bool body; do tls <- un_bool tls;
+    if (size <? 1)%Z || (n <? 0)%Z || (9 <? n)%Z then None else
+    let size := Z.to_N size in
+    let cs := plain_cases (Z.to_nat n) in
+    let r := run_batch false (limit_server size body tls) cs in
+    ret (L [ L (map (fun c => L [sx_kind (final c.(c_name) r.(r_log)); sx_nat (count c.(c_name) r.(r_log))]) cs);
+             sx_bool true; sx_bool (asks_for_body RdServerResponse size) ])
+  | _ => None end).
+
+(* ---------- the printer in front of the stderr parser ---------- *)
+Definition un_pcall (s : sx) : option pcall :=
+  match s with L [B p; B m] => Some (mkCall p m) | _ => None end.
+
+(* (batch names) ((goroutine: (prefix message)...)...) rounds mode
+     -> per round: ((side-band record per name) (lines passed through, sorted))
+   Goroutines call PrefixPrintf of the real printer concurrently; its stream is the stderr the
+   real runTestCasesForServer parses.  Evaluated under the sequential schedule; by
+   printer_feedback_attributed the records and the passed-through lines (as a multiset) are the
+   same under every schedule as long as no two submitted lines are attributed to the same name
+   (the generator's and the harness's precondition). `mode` only steers the Go side. *)
+Definition run_c11_printer (args : list sx) : sx :=
+  or_bad (match args with
+  | [names; progs; I rounds; I _] =>
+    do names <- un_listof un_B names;
+    do progs <- un_listof (un_listof un_pcall) progs;
+    if (rounds <? 1)%Z || (4 <? rounds)%Z then None else
+    let s := prun false (seq_sched 0 progs) (pinit progs) in
+    let '(sbs, fwd) := parse_stderr names s.(ps_out) in
+    let one := L [ L (map (fun n => sx_opt B (final_sb n sbs)) names); L (map B (sort_bytes fwd)) ] in
+    ret (L (repeat one (Z.to_nat rounds)))
+  | _ => None end).
+
 Definition c11_table : list (bytes * (list sx -> sx)) :=
-  [ (bs "c11.batch", run_c11_batch); (bs "c11.proc", run_c11_proc) ].
+  [ (bs "c11.batch", run_c11_batch); (bs "c11.proc", run_c11_proc);
+    (bs "c11.limit", run_c11_limit); (bs "c11.printer", run_c11_printer) ].
